@@ -143,13 +143,58 @@ def ob_schema_flow(ctx, res):
     if "autosql.unwrap_or_else(|| crate::bed::autosql::BED3.to_string())" not in t:
         res.fail("schemaFlow/default", wp, "the library default schema must be the three-field BED3")
         return
-    if not re.search(r"let Ok\(mut (\w+)\) = parse_autosql\(&autosql\) else \{break 'field_count None;?\};?", t) or \
-            not re.search(r"let Some\((\w+)\) = \w+\.pop\(\) else \{break 'field_count None;?\};?", t) or "fields.len()" not in t:
-        res.fail("schemaFlow/field-count", wp, "field count must be the number of fields of the last parsed declaration")
-        return
-    if "field_count.unwrap_or(3) as u16" not in t:
-        res.fail("schemaFlow/fallback", wp, "an unparsable schema falls back to field count 3")
-        return
+    # the field count is a small pure function of the parse result: it is evaluated for (unparsable schema, no declaration, two declarations)
+    from ..rules.interp import Interp, NotPure
+    st = wp.body["stmts"]
+    idx = [i for i, x in enumerate(st) if any(c.k == "call" and up(c["func"]).split("::")[-1] == "parse_autosql" for c in walk_no_nested_fn(x))]
+    fc = [i for i, x in enumerate(st) if x.k == "let" and x["pat"].k == "p_ident" and x["pat"]["name"] == "field_count"]
+    if len(idx) != 1 or not fc or fc[-1] < idx[0]:
+        res.undecided("schemaFlow/field-count", wp, "the statements computing `field_count` from parse_autosql(..) were not located")
+    else:
+        seg = st[min(idx[0], fc[0]):fc[-1] + 1]
+        bad = None
+        for desc, parsed, want in (("an unparsable schema", ("err", "E"), 3), ("a schema without a declaration", ("some", []), 3),
+                                   ("a schema with a 2-field and then a 5-field declaration", ("some", [{"__type": "Declaration", "fields": ["a", "b"]}, {"__type": "Declaration", "fields": list("abcde")}]), 5)):
+            def method(m, recv, args):
+                if isinstance(recv, list):
+                    if m == "pop" and not args:
+                        return ("some", recv.pop()) if recv else None
+                    if m == "last" and not args:
+                        return ("some", recv[-1]) if recv else None
+                    if m in ("next", "first") and not args:
+                        return ("some", recv[0]) if recv else None
+                    if m in ("next_back",) and not args:
+                        return ("some", recv[-1]) if recv else None
+                    if m == "rev" and not args:
+                        return list(reversed(recv))
+                    if m in ("len", "count") and not args:
+                        return len(recv)
+                    if m in ("into_iter", "iter") and not args:
+                        return list(recv)
+                    if m == "is_empty" and not args:
+                        return not recv
+                if m == "ok" and not args and isinstance(recv, tuple) and recv and recv[0] in ("some", "err"):
+                    return None if recv[0] == "err" else ("some", recv[1])
+                if m == "and_then" and len(args) == 1 and (recv is None or (isinstance(recv, tuple) and recv[0] == "some")):
+                    return None if recv is None else holder[0].apply_closure(args[0], [recv[1]])
+                raise NotPure("method " + m)
+            holder = [None]
+            itp = Interp(ctx.ast, BW, extern={"None": None, "method": method, "parse_autosql": lambda *a, parsed=parsed: (parsed[0], list(parsed[1])) if parsed[0] == "some" else parsed})
+            holder[0] = itp
+            env = {"autosql": "SCHEMA"}
+            try:
+                itp.run_stmts(seg, env)
+            except NotPure as e:
+                bad = ("undecided", str(e))
+                break
+            if env.get("field_count") != want:
+                bad = ("differs", "for %s the field count is %s, required %s" % (desc, env.get("field_count"), want))
+                break
+        if bad and bad[0] == "undecided":
+            res.undecided("schemaFlow/field-count", wp, "field count computation not evaluated (%s)" % bad[1])
+        elif bad:
+            res.fail("schemaFlow/field-count", wp, "field count must be the number of fields of the last parsed declaration, 3 when there is none: %s" % bad[1])
+            return
     news = ctx.ast.fns_in(BW)
     sd = ctx.ast.struct(BW, "BigBedWrite")
     cons = [f for f in news if f.name == "new" and f.body is not None]
